@@ -1,17 +1,18 @@
 """stand-in for simplejson 3.x (not installed): stdlib json, except that bytes values are
-serialised as UTF-8 text like simplejson does (stdlib json raises TypeError)."""
+serialised as UTF-8 text like simplejson does (stdlib json raises TypeError).
+
+dump() streams chunk by chunk exactly like simplejson.dump (which always uses the pure-Python
+_make_iterencode generator for dump(): '{', key, ': ', value, ', ', ...): a value that cannot be
+serialised -- an object of an unsupported type (TypeError), bytes that are not UTF-8
+(UnicodeDecodeError), a non-scalar dict key (TypeError) -- raises in the middle of the stream,
+AFTER everything before it has already been written to the file object.  That partial output is
+what property C20 is about, so the conversion of bytes is done lazily, at the point of emission.
+dumps() builds the whole string first, so an error there produces no output at all."""
 import json as _json
 from json import loads, JSONDecodeError  # noqa
+from json.encoder import encode_basestring_ascii as _enc_str
 
-
-class _Enc(_json.JSONEncoder):
-    def default(self, o):
-        if isinstance(o, bytes):
-            return o.decode('utf-8')
-        return _json.JSONEncoder.default(self, o)
-
-    def iterencode(self, o, _one_shot=False):
-        return _json.JSONEncoder.iterencode(self, _conv(o), _one_shot)
+_FLOAT_INF = float('inf')
 
 
 def _conv(o):
@@ -28,16 +29,105 @@ def dumps(obj, **kw):
     return _json.dumps(_conv(obj), **kw)
 
 
+def _text(s):
+    # simplejson.encoder.py_encode_basestring_ascii: bytes are decoded as UTF-8 first
+    if isinstance(s, bytes):
+        s = str(s, 'utf-8')
+    return _enc_str(s)
+
+
+def _floatstr(o):
+    if o != o:
+        return 'NaN'
+    if o == _FLOAT_INF:
+        return 'Infinity'
+    if o == -_FLOAT_INF:
+        return '-Infinity'
+    return float.__repr__(o)
+
+
+def _key(k):
+    # simplejson _stringify_key
+    if isinstance(k, str):
+        return k
+    if isinstance(k, bytes):
+        return str(k, 'utf-8')
+    if isinstance(k, float):
+        return _floatstr(k)
+    if k is True:
+        return 'true'
+    if k is False:
+        return 'false'
+    if k is None:
+        return 'null'
+    if isinstance(k, int):
+        return str(int(k))
+    raise TypeError('keys must be str, int, float, bool or None, not %s' % k.__class__.__name__)
+
+
+def _iterencode(o, markers):
+    if isinstance(o, (str, bytes)):
+        yield _text(o)
+    elif o is None:
+        yield 'null'
+    elif o is True:
+        yield 'true'
+    elif o is False:
+        yield 'false'
+    elif isinstance(o, int):
+        yield str(int(o))
+    elif isinstance(o, float):
+        yield _floatstr(o)
+    elif isinstance(o, (list, tuple)):
+        if id(o) in markers:
+            raise ValueError('Circular reference detected')
+        markers[id(o)] = o
+        if not o:
+            yield '[]'
+        else:
+            yield '['
+            first = True
+            for v in o:
+                if first:
+                    first = False
+                else:
+                    yield ', '
+                for chunk in _iterencode(v, markers):
+                    yield chunk
+            yield ']'
+        del markers[id(o)]
+    elif isinstance(o, dict):
+        if id(o) in markers:
+            raise ValueError('Circular reference detected')
+        markers[id(o)] = o
+        if not o:
+            yield '{}'
+        else:
+            yield '{'
+            first = True
+            for k, v in o.items():
+                k = _key(k)            # may raise: nothing of this item has been emitted yet
+                if first:
+                    first = False
+                else:
+                    yield ', '
+                yield _enc_str(k)
+                yield ': '
+                for chunk in _iterencode(v, markers):
+                    yield chunk
+            yield '}'
+        del markers[id(o)]
+    else:
+        raise TypeError('Object of type %s is not JSON serializable' % o.__class__.__name__)
+
+
 def dump(obj, fp, **kw):
-    # like simplejson/json: streamed chunk by chunk, so an error can leave a partial line
-    for chunk in _json.JSONEncoder(**kw).iterencode(_conv_lazy(obj)):
+    if kw:
+        it = _json.JSONEncoder(**kw).iterencode(_conv(obj))
+    else:
+        it = _iterencode(obj, {})
+    for chunk in it:
         fp.write(chunk)
-
-
-def _conv_lazy(o):
-    # conversion errors (undecodable bytes) must surface during iteration like simplejson;
-    # keep it simple: convert eagerly, errors raise before any output is written
-    return _conv(o)
 
 
 def load(fp, **kw):
